@@ -241,8 +241,17 @@ var docFaultOps = []docFaultOp{
 				keep = append(keep, x)
 			}
 		}
+		removed := len(keep) < len(*a.Args)
 		*a.Args = keep
-		return true
+		// the site is gone: later faults must not pick it (duplicate-argument would put it back)
+		var live []ArgSite
+		for _, x := range td.Args {
+			if x.Arg != a.Arg {
+				live = append(live, x)
+			}
+		}
+		td.Args = live
+		return removed
 	}},
 	{"wrong-literal-kind", "ValuesOfCorrectType", func(t *rapid.T, td *TypedDoc, s *ref.Schema) bool {
 		vs := valuesOf(td, func(v ValueSite) bool {
